@@ -77,8 +77,48 @@ func bigSign(e *Engine, a, b BigF) Val {
 	return Int{W: 64, S: true, T: "(ite (fp.lt " + x + " " + y + ") #xffffffffffffffff (ite (fp.gt " + x + " " + y + ") #x0000000000000001 #x0000000000000000))"}
 }
 
+// BigI: *math/big.Int for crypto/rand.Int / NewInt / Int64 (the value is kept in the first field of the object)
+type BigI struct{ V Int }
+
 func bigStubs() map[string]stubFn {
 	return map[string]stubFn{
+		// crypto/rand.Int(reader, max): a fresh value in [0, max) — randomness is an input of the path; the number of
+		// readings is available to harnesses as vRandCount()
+		"crypto/rand.Int": func(e *Engine, fn *ssa.Function, args []Val) Val {
+			t := fn.Signature.Results().At(0).Type().(*types.Pointer).Elem()
+			p := Ptr{O: e.newObj(zero(t))}
+			e.randReads++
+			v := e.freshInput("rand", 64, true)
+			if mp, ok := args[1].(Ptr); ok && mp.O != nil {
+				if b, ok := e.loadRaw(mp).(Agg).F[0].(BigI); ok {
+					if v.sym() {
+						e.doAssume(Bool{T: "(and (bvsge " + v.T + " #x0000000000000000) (bvslt " + v.T + " " + b.V.term() + "))"}, "rand.Int range")
+					} else if !b.V.sym() && b.V.C != 0 {
+						v.C = v.C % b.V.C
+					}
+				}
+			}
+			e.loadRaw(p).(Agg).F[0] = BigI{V: v}
+			return Tuple{p, Iface{}}
+		},
+		"math/big.NewInt": func(e *Engine, fn *ssa.Function, args []Val) Val {
+			t := fn.Signature.Results().At(0).Type().(*types.Pointer).Elem()
+			p := Ptr{O: e.newObj(zero(t))}
+			x := args[0].(Int)
+			x.S = true
+			e.loadRaw(p).(Agg).F[0] = BigI{V: x}
+			return p
+		},
+		"(*math/big.Int).Int64": func(e *Engine, fn *ssa.Function, args []Val) Val {
+			p := args[0].(Ptr)
+			if p.O == nil {
+				e.rtPanic("invalid memory address or nil pointer dereference (big.Int)")
+			}
+			if b, ok := e.loadRaw(p).(Agg).F[0].(BigI); ok {
+				return b.V
+			}
+			return Int{W: 64, S: true}
+		},
 		"(*math/big.Float).SetInt64": func(e *Engine, fn *ssa.Function, args []Val) Val {
 			x := args[1].(Int)
 			x.S = true
